@@ -15,6 +15,7 @@ symbol-mismatch error rather than answered.
 -/
 import AutomataVerif.Proofs.Product
 import AutomataVerif.Proofs.PyShape
+import AutomataVerif.Proofs.ExpandValid
 
 namespace AV.Props.C04
 open AV AV.DFA
@@ -89,5 +90,42 @@ example : exA.symsEq exB = true := by decide
 example : (match exA.binopPlain .diff exB with
            | .ok R => (R.accepts [1], R.accepts [0, 1], R.states.length)
            | .error _ => (false, false, 0)) = (false, true, 4) := by decide
+
+end AV.Props.C04
+
+/-! # Validity of the results, renaming, completion, complement, partial form, compositions -/
+
+namespace AV.Props.C04
+open AV AV.DFA
+
+variable {σ α : Type} [DecidableEq σ] [DecidableEq α]
+
+/-! ## 1. the result of a Boolean operation is a valid DFA -/
+
+/-- **Boolean operations return valid DFAs** (`retain_names=True, minify=False`).  For valid
+operands over a common alphabet the result passes `validate` — including the completeness
+check when `_expand_dfa` infers `allow_partial=False` —, is duplicate-free (a genuine
+Python value), is over the operands' alphabet, and its transition keys are exactly its
+states. -/
+theorem C04_binop_valid (op : BinOp) (A B : AV.DFA σ α) (hA : A.validate = .ok ())
+    (hB : B.validate = .ok ()) (pA : A.PyShape) (hs : A.symsEq B = true) :
+    ∃ R, A.binopPlain op B = .ok R ∧ R.validate = .ok () ∧ R.PyShape ∧ R.syms = A.syms ∧
+      akeys R.trans = R.states := by
+  have wfA := (DFA.validate_eq_ok A).mp hA
+  have wfB := (DFA.validate_eq_ok B).mp hB
+  have hyp := product_expandHyp A B op.lrel op.rrel hA hB pA
+  unfold binopPlain
+  simp only [hs, Bool.not_true, Bool.false_eq_true, if_false]
+  refine ⟨_, rfl, ?_, ?_, rfl, ?_⟩
+  · exact expand_valid _ _ hyp (fun u _ => crossSucc_keys_sub_syms wfA wfB hs _ _ u)
+  · exact expand_pyShape _ _ hyp pA.syms_nodup
+  · exact expand_keys_eq_states _ _
+
+example : (match exA.binopPlain .symm exB with
+           | .ok R => R.validate
+           | .error e => .error e) = .ok () := by rfl
+example : (match exA.binopPlain .inter exB with
+           | .ok R => (R.allowPartial, R.states.length, R.trans.length)
+           | .error _ => (false, 0, 0)) = (true, 4, 4) := by decide
 
 end AV.Props.C04
